@@ -12,7 +12,7 @@ CHECKS = {
   "DESIGN.md §3.2, §5 C01"),
  "C02": ("envx",
   "stateless model checking of two real stacks in a deterministic world: all histories that drop any single frame / pair of frames or fire a timer early, run to the idle horizon in virtual time; liveness decided exactly on the idle end state",
-  "Close scenarios (one-sided shutdown, simultaneous shutdown, half-close then reply, close with unread data, receiver stalls until the window closes then drains) x payload sizes {0, 1 segment, 3 segments, more than the receive window}: every history with up to 1 (thorough 2) dropped frames of the exchange (SYN, SYN-ACK, ACK, data, window update, FIN) or early timers. Oracles: everything written is delivered unless an endpoint reports an error; end-of-stream after shutdown, no data after it; both endpoints closed without error when nothing was lost; the world never ends idle (nothing in flight, no timer, no application call possible) with unsent/unacknowledged data or FIN on an endpoint that is not in the error state.",
+  "Close scenarios (one-sided shutdown, simultaneous shutdown, half-close then reply, accepting side speaks first, close with unread data, receiver stalls until the window closes then drains) x payload sizes {0, 1 segment, 3 segments, more than the receive window}: every history with up to 1 (thorough 2) dropped frames of the exchange (SYN, SYN-ACK, ACK, data, window update, FIN) or early timers. Oracles: everything written is delivered unless an endpoint reports an error; end-of-stream after shutdown, no data after it; both endpoints closed without error when nothing was lost; the world never ends idle (nothing in flight, no timer, no application call possible) with unsent/unacknowledged data or FIN on an endpoint that is not in the error state.",
   "Horizon: idle world or 15 virtual minutes. One recorded known finding D6 (no zero-window probe).",
   "DESIGN.md §5 C02"),
  "C03": ("envx/seqx",
@@ -102,7 +102,7 @@ CHECKS = {
   "DESIGN.md §5 C12"),
  "C20": ("enum (envx world)",
   "exhaustive enumeration of the request / message input product through the real bundled HTTP and WebSocket code over the real stack talking to itself in the deterministic world (frames pumped at a quiescence barrier; the pacing of application reads against segment arrival enumerated as environment choices), compared with what was sent and with an independent RFC 6455 frame codec and accept-key computation",
-  "HTTP: methods {GET,HEAD,POST,PUT} x 4 paths (3 registered, 1 not) x all 16 subsets of a 4-header menu x bodies {empty, 1 byte, 1 KiB; thorough also 60000 bytes}; all 64 sequences of 3 requests over a 4-request menu: the handler registered for the path is invoked exactly once with method, header values and body byte-for-byte, no handler for an unregistered path, the client result equals what the handler produced, status line 200 OK on the wire. WebSocket: accept key for 8 client keys vs RFC 6455; every message length 0..130 and 65530..65540 plus 200 KiB and 300 KiB, unmasked through the bundled client and masked with keys {00000000, ffffffff, 01020304, 80000001} through a raw RFC 6455 client over the repository's TCP client; sequences of 3 client messages + 2 server pushes over lengths {0,7,126,300}: every message arrives whole, in order, byte-for-byte in both directions, server frames decode with minimal length encoding. Pacing: the handler passes a gate before every read and the client before every receive; for exchanges of two messages (300+7 and 70000+5 bytes; thorough also 200 KiB+66000 and 0+126), with and without two server pushes, masked and unmasked, pipelined and lock-step, every gate vector over {run at once, after 1 more frame, after 2 more frames, when nothing else can move}^3 for the server x {at once, when idle} for the client x {1, 2, all} frames delivered per barrier.",
+  "HTTP: methods {GET,HEAD,POST,PUT} x 4 paths (3 registered, 1 not) x all 16 subsets of a 4-header menu x bodies {empty, 1 byte, 1 KiB; thorough also 60000 bytes}; all 64 sequences of 3 requests over a 4-request menu: the handler registered for the path is invoked exactly once with method, header values and body byte-for-byte, no handler for an unregistered path, the client result equals what the handler produced, status line 200 OK on the wire. WebSocket: accept key for 8 client keys vs RFC 6455; every message length 0..130 and 65530..65540 plus 200 KiB and 300 KiB, unmasked through the bundled client and masked with keys {00000000, ffffffff, 01020304, 80000001} through a raw RFC 6455 client over the repository's TCP client; sequences of 3 client messages + 2 server pushes over lengths {0,7,126,300}: every message arrives whole, in order, byte-for-byte in both directions, server frames decode with minimal length encoding. Pacing: the handler passes a gate before every read and the client before every receive; for exchanges of two messages (300+7 and 70000+5 bytes; thorough also 200 KiB+66000 and 0+126), with and without two server pushes, masked and unmasked, pipelined and lock-step, every gate vector over {run at once, after 1 more frame, after 2 more frames, when nothing else can move}^3 for the server x {at once, when idle} for the client x {1, 2, all} frames delivered per barrier. The same exchanges with 20000/30000-byte messages followed by shorter ones over an MTU of 1500 (the first message is still queued in the TCP sender when the next is produced).",
   "Bodies and header values are in the grammar the bundled parser carries (no ': ', no CRLF). A request fits one TCP segment (the HTTP layer reads a message with a single receive; loopback MTU 65535). The application goroutines run freely between barriers (channels of the application layer are not scheduled by the explorer): below the gates the check enumerates inputs and application pacing, not lock-level interleavings. Known finding D17 (pushed frames swallowed by the client's upgrade receive).",
   "DESIGN.md §5 C20"),
 }
